@@ -163,7 +163,10 @@ func svcSessions(run *vh.Run, n int) {
 				for len(notify) > 0 {
 					<-notify
 				}
-				sy.Receive(actorCtx{m: mkMsg(k, seq)})
+				if !recvGuard(sy, mkMsg(k, seq)) {
+					run.Fail("the syncer actor is blocked for ever in Receive", map[string]interface{}{"session": ops, "kind": k, "seq": seq, "running-seq": seq0})
+					return
+				}
 				o := state()
 				line := fmt.Sprintf("sys msg %s %d", k, seq)
 				ops = append(ops, line+" => "+o)
